@@ -244,6 +244,25 @@ func genSigOps(r *rand.Rand, n int) []string {
 				extra = append(extra, fmt.Sprintf("sig.sign %s %s | same", hx(bigMsg), t2), fmt.Sprintf("sig.verify %s %s %s | same", hx(bigMsg), hx(sg), t2))
 			}
 		}
+		if i%25 == 8 {
+			// fixed slots, the three curves in turn: compressed public keys (boolean y) whose x is not an abscissa of the
+			// curve — random octets (about half are not), the field prime itself, the prime plus one, all ones — given to
+			// every way of obtaining a verifier: refused, never a nil point
+			r2 := rand.New(rand.NewSource(int64(i)*49979687 + 13))
+			a2 := []int{iana.AlgorithmES256, iana.AlgorithmES384, iana.AlgorithmES512}[(i/25)%3]
+			k2 := genEcScalar(r2, a2)
+			sz := k2.size()
+			pr := k2.curve.Params().P
+			ones := make([]byte, sz)
+			for j := range ones {
+				ones[j] = 0xff
+			}
+			xs := [][]byte{randBytes(r2, sz), randBytes(r2, sz), pr.FillBytes(make([]byte, sz)), new(big.Int).Add(pr, big.NewInt(1)).FillBytes(make([]byte, sz)), ones}
+			for j, x := range xs {
+				t2 := fmt.Sprintf("{ int:1 int:2 int:-1 int:%d int:-2 b:%s int:-3 %s int:3 int:%d }", k2.crv, hx(x), []string{"T", "F"}[j%2], a2)
+				extra = append(extra, "sig.verifierkey "+t2, "key.factory Verifier "+t2, fmt.Sprintf("sig.verify %s %s %s | same", hx(randBytes(r2, 9)), hx(randBytes(r2, 2*sz)), t2))
+			}
+		}
 		alg := sigAlgs[r.Intn(len(sigAlgs))]
 		data := randBytes(r, msgLen(r, i%40 == 0))
 		if i%9 == 4 { // sizes at which a buffered / pre-hashed implementation would change gear
